@@ -1,10 +1,11 @@
 #!/usr/bin/env python3
 """prompt for a mutant-writing sub-agent that is given a PLACE in the code (files) and the list of all property
 statements, and chooses itself which property its change breaks.   usage: agent_prompt2.py <tag> <files...>"""
-import json, sys
+import json, os, sys
 tag, files = sys.argv[1], sys.argv[2:]
 props = [json.loads(l) for l in open('/verif/properties.jsonl')]
 wt = f"/tmp/seed-{tag}"
+hint = os.environ.get('HINT', '')
 plist = "\n".join(f"  {p['id']} — {p['title']}: {p['statement']} (It must hold {p['quantifier']['text']}.)" for p in props)
 print(f"""You are helping to evaluate a verification framework by writing ONE realistic, subtle bug ("seeded change") into a Rust library.
 
@@ -15,7 +16,7 @@ These are the semantic properties users of the library rely on:
 {plist}
 
 Your task:
-1. Your change must be made in: {', '.join(files)} (under {wt}/). Read that code carefully, including rarely used functions, helper methods, default trait methods, feature-gated branches and error paths. Find a small, plausible-looking source change (the kind of mistake a maintainer could make in a refactor or "optimisation") that makes ONE of the properties above false. Prefer code paths that an ordinary test would not exercise. State clearly WHICH property (its id) your change breaks.
+1. Your change must be made in: {', '.join(files)} (under {wt}/). Read that code carefully, including rarely used functions, helper methods, default trait methods, feature-gated branches and error paths. Find a small, plausible-looking source change (the kind of mistake a maintainer could make in a refactor or "optimisation") that makes ONE of the properties above false. Prefer code paths that an ordinary test would not exercise.{(' Direction to look in: ' + hint) if hint else ''} State clearly WHICH property (its id) your change breaks.
 2. The change MUST: (a) compile (`cargo build --offline --all-features` and default features), (b) leave the ENTIRE existing test-suite passing: run `cd {wt} && cargo test --offline` AND `cargo test --offline --all-features` and confirm zero failures, (c) break the property only in a SPECIFIC situation — a particular multi-step sequence of operations, a failure at a particular point in a message tree, an unusual input (special bytes, repeated denominations, zero amounts, boundary values), a particular configuration, or two cooperating sites that each look fine alone. Do NOT write a change that ordinary use exposes at once. Do not change public function signatures. Do not touch tests, Cargo.toml features or src/verif.rs. Avoid these already-used ideas: skipping "no-op" writes in the write cache; treating an empty range bound as unbounded; running instantiate before moving funds; dispatching migrate's messages as the admin; making wasm_sudo non-transactional; a cache only for some reply_on modes; HashSet ordering; wall-clock gas; a process-wide counter.
 3. Write a demonstration: a new standalone integration test file {wt}/tests/seeded_demo.rs (cargo picks it up as its own test target next to tests/mod.rs) containing one or more #[test] functions that FAIL with your change and PASS without it. Verify both: run the demo with your change (fails), then revert the src change with `git diff -- src > patch.diff; git apply -R patch.diff` (keep the demo), run the demo again (passes), then re-apply with `git apply patch.diff` (do not use git stash).
 4. Leave the worktree with your change applied and the demo present. Produce the patch with `cd {wt} && git diff -- src > {wt}/patch.diff` (source change only, not the demo). Run `cargo clean` at the end.
